@@ -91,14 +91,35 @@ Definition el_rejoin (el : N) : N :=
   let ext := N.lor (N.land (N.shiftl e57 5) 255) e04 in
   N.lor (N.shiftl ext 8) (N.land el 255).
 
-Lemma el_rejoin_all : forallb (fun k => el_rejoin (N.of_nat k) =? N.of_nat k) (seq 0 (N.to_nat 65536)) = true.
-Proof. vm_compute. reflexivity. Qed.
+Lemma lor_shift_add q r k : r < 2 ^ k -> N.lor (N.shiftl q k) r = q * 2 ^ k + r.
+Proof.
+  intros H. rewrite N.shiftl_mul_pow2.
+  assert (Hl : N.land (q * 2 ^ k) r = 0).
+  { apply N.bits_inj. intros n. rewrite N.land_spec, N.bits_0.
+    destruct (N.lt_ge_cases n k) as [Hn|Hn].
+    - rewrite N.mul_pow2_bits_low by exact Hn. reflexivity.
+    - assert (Hr : N.testbit r n = false).
+      { destruct (N.eq_dec r 0) as [->|Hr0]; [apply N.bits_0|].
+        apply N.bits_above_log2. apply N.log2_lt_pow2; [lia|].
+        eapply N.lt_le_trans; [exact H|]. apply N.pow_le_mono_r; lia. }
+      rewrite Hr. apply Bool.andb_false_r. }
+  rewrite <- N.lxor_lor by exact Hl. symmetry. apply N.add_nocarry_lxor. exact Hl.
+Qed.
 
 Lemma el_rejoin_id el : el < 65536 -> el_rejoin el = el.
 Proof.
-  intros H. pose proof el_rejoin_all as Ha. rewrite forallb_forall in Ha.
-  specialize (Ha (N.to_nat el)). rewrite N2Nat.id in Ha. apply N.eqb_eq. apply Ha.
-  apply in_seq. lia.
+  intros H. unfold el_rejoin. cbv zeta.
+  change 255 with (N.ones 8). change 31 with (N.ones 5).
+  rewrite !N.land_ones, !N.shiftr_div_pow2.
+  change (2 ^ 8) with 256. change (2 ^ 5) with 32.
+  set (q := el / 256). assert (Hq : q < 256) by (unfold q; lia).
+  rewrite (N.mod_small q 256 Hq).
+  assert (Hs : N.shiftl (q / 32) 5 mod 256 = N.shiftl (q / 32) 5).
+  { apply N.mod_small. rewrite N.shiftl_mul_pow2. change (2 ^ 5) with 32. lia. }
+  rewrite Hs. rewrite (lor_shift_add (q / 32) (q mod 32) 5) by (change (2 ^ 5) with 32; lia).
+  change (2 ^ 5) with 32. replace (q / 32 * 32 + q mod 32) with q by lia.
+  rewrite (lor_shift_add q (el mod 256) 8) by (change (2 ^ 8) with 256; lia).
+  change (2 ^ 8) with 256. unfold q. lia.
 Qed.
 
 (* one parsing step: extend the accumulated `consumed` fact Hc and record the writer fact *)
